@@ -28,7 +28,10 @@ RULE = ("cases = (system, FFT grid, formula, degen_thresh, degen_Kramers); each 
         "mechanism) for mechanisms actually exercised: 'partial' (some but not all groups occupied at some level), "
         "'multiband_group' (a group of >=2 bands changes occupation inside the Fermi grid), 'below_window' (a group lies "
         "below EFmin and is completed), 'surface' (a finite difference is non-zero), 'select' (a partially selected group "
-        "contributes)")
+        "contributes); 'history' cases: every ordered sequence (depth 2 quick / 3 thorough) over a 14-letter alphabet of "
+        "calculators (sea/surface x grids engineered so that EFmin/EFmax of a sea scan equal those of a surface scan, band "
+        "selection, k_resolved, hole_like, tetra with identical / nearby / other Fermi arrays and thresholds) is evaluated on ONE "
+        "shared Data_K object and the last result must equal the same calculator on a fresh Data_K")
 ASSUMPTIONS = [
     "Fermi levels closer than 1e-9 to a group mean energy are ties and are not judged (either side is legitimate)",
     "uniform Fermi grids only (the calculators assume a uniform grid: dEF = Efermi[1]-Efermi[0])",
@@ -67,6 +70,18 @@ def cases(tier, seed):
                         yield {"system": system, "grid": list(grid), "formula": formula, "thresh": thr, "kramers": kram,
                                "spacings": list(SPACINGS_Q if quick else SPACINGS_T),
                                "counts": list(COUNTS if quick else COUNTS + (31,))}
+    yield from history_cases(tier)
+
+
+def history_cases(tier):
+    """'history' cases: a Data_K object is shared by all calculators of a K-point in run(); the result of a calculator
+    must not depend on which other calculators were evaluated on the same Data_K before it (caches with incomplete keys)"""
+    quick = tier == "quick"
+    for system in (("zoo3", "dbl4") if quick else SYSTEMS_Q):
+        for formula in (("Identity", "Omega") if quick else ("Identity", "Omega", "Morb_Hpm")):
+            for thr in (-1, 0.5):
+                yield {"kind": "history", "system": system, "grid": [2, 2, 2], "formula": formula, "thresh": thr,
+                       "depth": 2 if quick else 3}
 
 
 # ---------------------------------------------------------------------------------------------- systems
@@ -265,9 +280,67 @@ def fermi_grids(model, counts, spacings):
 
 # ---------------------------------------------------------------------------------------------- run
 
+def run_history(case, seed):
+    import itertools
+    from wannierberri.calculators.static import StaticCalculator
+    system = make_system(case["system"], seed)
+    Formula, kw = formula_spec(case["formula"], system)
+    thr = case["thresh"]
+    d0 = make_data_K(system, case["grid"])
+    E = np.sort(np.array(d0.E_K).reshape(-1))
+    lo, hi = E[len(E) // 4], E[(3 * len(E)) // 4]
+    n = 7
+    G = lo + (hi - lo) / (n - 1) * np.arange(n) + 1.234567e-4
+    dE = G[1] - G[0]
+
+    def mk(fder, Ef, **kwargs):
+        return StaticCalculator(Efermi=np.array(Ef), Formula=Formula, fder=fder, kwargs_formula=dict(kw), degen_thresh=thr, **kwargs)
+    s1 = mk(1, G)
+    Gext = s1.EFmin + dE * np.arange(n + 2)
+    Gext[0], Gext[-1] = s1.EFmin, s1.EFmax          # a sea scan with exactly the surface scan's (EFmin, EFmax)
+    s3 = mk(3, G)
+    Gext3 = s3.EFmin + dE * np.arange(n + 4)
+    Gext3[0], Gext3[-1] = s3.EFmin, s3.EFmax
+    alphabet = {
+        "sea(G)": lambda: mk(0, G), "surf1(G)": lambda: mk(1, G), "surf2(G)": lambda: mk(2, G), "surf3(G)": lambda: mk(3, G),
+        "sea(Gext1)": lambda: mk(0, Gext), "sea(Gext3)": lambda: mk(0, Gext3),
+        "surf1(G,select=[0])": lambda: mk(1, G, select_bands=np.array([0])),
+        "sea(G,kres)": lambda: mk(0, G, k_resolved=True), "surf1(G,hole)": lambda: mk(1, G, hole_like=True),
+        "tetra_sea(G)": lambda: mk(0, G, tetra=True), "tetra_surf1(G)": lambda: mk(1, G, tetra=True),
+        "tetra_sea(G+5e-9)": lambda: mk(0, G + 5e-9, tetra=True), "tetra_surf1(G+5e-9)": lambda: mk(1, G + 5e-9, tetra=True),
+        "tetra_sea(G*(1+3e-6))": lambda: mk(0, G * (1 + 3e-6), tetra=True),
+        "tetra_sea(G,thr2)": lambda: StaticCalculator(Efermi=G, Formula=Formula, fder=0, kwargs_formula=dict(kw), degen_thresh=0.05, tetra=True),
+    }
+    names = list(alphabet)
+    fresh = {}
+    for nm in names:
+        fresh[nm] = np.array(alphabet[nm]()(make_data_K(system, case["grid"])).data)
+    nseq = 0
+    for seq in itertools.product(names, repeat=case["depth"]):
+        if case["depth"] == 3 and len(set(seq)) < 3:
+            continue
+        dK = make_data_K(system, case["grid"])
+        out = None
+        for nm in seq:
+            out = np.array(alphabet[nm]()(dK).data)
+        nseq += 1
+        ref = fresh[seq[-1]]
+        sc = max(np.abs(ref).max(), 1e-300)
+        if out.shape != ref.shape or not np.abs(out - ref).max() <= 1e-12 * sc:
+            err = np.abs(out - ref).max() / sc if out.shape == ref.shape else np.inf
+            return {"ok": False, "key": "Data_K:result_depends_on_calculator_history" + (":tetra" if "tetra" in seq[-1] else ""),
+                    "nontrivial": ("history", case["system"], case["formula"], thr),
+                    "detail": f"system={case['system']} formula={case['formula']} degen_thresh={thr}: {seq[-1]} evaluated after "
+                              f"{list(seq[:-1])} on the same Data_K differs from the same calculator on a fresh Data_K by {err:.3g} (relative)"}
+    return {"ok": True, "nontrivial": ("history", case["system"], case["formula"], thr),
+            "obs": {"sequences": nseq, "alphabet": len(names), "calculator_calls": nseq * case["depth"] + len(names)}}
+
+
 def run_case(case, seed):
     """failures keep the non-trivial mechanisms seen before the failure; an exception raised by the library inside a
     calculator call is a finding of its own (key StaticCalculator:exception:<Type>)"""
+    if case.get("kind") == "history":
+        return run_history(case, seed)
     seen = set()
     tag = [case["system"], list(case["grid"]), case["formula"], case["thresh"], case["kramers"]]
     try:
